@@ -6,6 +6,10 @@ ALL = ["C%02d" % i for i in range(1, 21)]
 
 # id -> (technique, level text, level note, design ref)
 CLAIMED = {
+ "C15": ("model-based property testing (rapid): operation sequences drawn as data, run against ast.Node and a plain ordered-tree model, observations and final MarshalJSON compared",
+         "Generated histories of reads and mutations are applied to a real node (created lazily in six different ways) and to an ordered-map/array model; each return value, each read and the periodic full serialisation must agree with the model, so the order of lazy parsing or the loaded state must never show. Exploration over generated histories.",
+         "Trusted: the model in props/c15.go (doc-comment semantics), harness/ref tokeniser. Two known findings (Len on lazy nodes; copies of lazy nodes share the parser) are recorded; the first is skipped in place, the second ends the sequence.",
+         "DESIGN.md §7 C15"),
  "C14": ("property-based testing (rapid): reference ordered-tree parser + differential vs encoding/json on the addressed span, over generated documents, paths, options and entry points",
          "Generated documents and paths (drawn by walking the reference tree) are resolved through nine AST entry points under all search option combinations; existence, Raw text, typed accessors, Interface/Map/Array conversions, iterators and the Preorder event stream are compared with the reference tree and with encoding/json on the addressed span. Exploration.",
          "Trusted: harness/ref.Parse (ordered tree keeping duplicates), encoding/json, strconv.",
